@@ -14,7 +14,10 @@
 package main
 
 import (
+	"bytes"
 	"errors"
+	"fmt"
+	"os/exec"
 	"io"
 	"log"
 	"os"
@@ -925,12 +928,267 @@ func runLean(in Sx) Sx {
 	return obs
 }
 
+// ---------------------------------------------------------------- panicking tasks, in a child process
+//
+// A task may panic with a value of any shape.  If the recover machinery itself fails the whole
+// process dies, so these scenarios run in a child process (this binary with C18_CHILD set) and the
+// death of the child is an observation.
+
+type sliceErr []string
+
+func (e sliceErr) Error() string { return strings.Join(e, ",") }
+
+type withSlice struct {
+	name string
+	data []int
+}
+
+var shapeNames = []string{"string", "error", "runtime.Error", "int", "nil", "slice", "map", "func", "struct with slice", "pointer", "slice-typed error"}
+
+func panicWith(shape int) {
+	switch shape {
+	case 0:
+		panic("task panics")
+	case 1:
+		panic(errors.New("task failed badly"))
+	case 2:
+		var m map[int]int
+		m[1] = 1
+	case 3:
+		panic(42)
+	case 4:
+		panic(nil)
+	case 5:
+		panic([]int{1, 2, 3})
+	case 6:
+		panic(map[string]int{"a": 1})
+	case 7:
+		panic(func() {})
+	case 8:
+		panic(withSlice{"x", []int{1}})
+	case 9:
+		panic(&withSlice{"y", nil})
+	default:
+		panic(sliceErr{"a", "b"})
+	}
+}
+
+func childMain(spec string) {
+	var shape, nw int
+	fmt.Sscanf(spec, "%d %d", &shape, &nw)
+	e := sched.NewThreadPoolExecutor(nw, 8).(*sched.ThreadPoolExecutor)
+	var runs [5]int32
+	for i := 0; i < 5; i++ {
+		i := i
+		Catch(func() {
+			e.Execute(sched.NewTask(func() error {
+				atomic.AddInt32(&runs[i], 1)
+				if i == 1 || i == 3 {
+					panicWith(shape)
+				}
+				return nil
+			}))
+		})
+	}
+	for dl := time.Now().Add(3 * time.Second); time.Now().Before(dl); time.Sleep(time.Millisecond) {
+		n := int32(0)
+		for i := range runs {
+			n += atomic.LoadInt32(&runs[i])
+		}
+		if n >= 5 {
+			break
+		}
+	}
+	back := make(chan struct{})
+	go func() { Catch(func() { e.Shutdown() }); close(back) }()
+	ret := 0
+	select {
+	case <-back:
+		ret = 1
+	case <-time.After(3 * time.Second):
+	}
+	fmt.Printf("RESULT %d %d %d %d %d %d\n", runs[0], runs[1], runs[2], runs[3], runs[4], ret)
+}
+
+func runPanicShape(in Sx) Sx {
+	nw, shape := in.At(1).AsInt(), in.At(5).AsInt()
+	cmd := exec.Command(os.Args[0])
+	cmd.Env = append(os.Environ(), fmt.Sprintf("C18_CHILD=%d %d", shape, nw))
+	var outb bytes.Buffer
+	cmd.Stdout = &outb
+	done := make(chan error, 1)
+	inconclusive := false
+	if err := cmd.Start(); err != nil {
+		inconclusive = true
+	} else {
+		go func() { done <- cmd.Wait() }()
+		select {
+		case <-done:
+		case <-time.After(20 * time.Second):
+			cmd.Process.Kill()
+			inconclusive = true
+		}
+	}
+	st := []int{9, 9, 9, 9, 9} // the process died while the tasks were running
+	runs := []int{0, 0, 0, 0, 0}
+	ret := 0
+	if i := strings.Index(outb.String(), "RESULT "); i >= 0 {
+		var r [5]int
+		if n, _ := fmt.Sscanf(outb.String()[i:], "RESULT %d %d %d %d %d %d", &r[0], &r[1], &r[2], &r[3], &r[4], &ret); n == 6 {
+			st = []int{1, 1, 1, 1, 1}
+			runs = r[:]
+		}
+	}
+	return List(ints(st), ints([]int{1, 1, 1, 1, 1}), ints(runs), ints(runs), List(Int(0), Int(int64(ret)), Bool(inconclusive),
+		Int(0), Int(0), Bool(true), Bool(false), Int(0), Bool(false)))
+}
+
+// ---------------------------------------------------------------- lean fresh executors
+//
+// `lanes` goroutines each create `rounds` fresh executors and let nsub callers (released from a spin
+// barrier) make the first Execute calls.  Nothing but the race itself runs in a round; only when a
+// lane stalls (a caller not back after 2 s) is a goroutine dump taken: a caller parked inside start()
+// while the state reads Running can never return.
+
+func leanFresh(in Sx) Sx {
+	nw, capacity, nsub, rounds := in.At(1).AsInt(), in.At(2).AsInt(), in.At(3).AsInt(), in.At(6).AsInt()
+	const lanes = 4
+	type result struct {
+		st      []int
+		runs    []int
+		stalled bool
+		incon   bool
+	}
+	var found atomic.Value
+	var stopAll int32
+	var wg sync.WaitGroup
+	last := make([]result, lanes)
+	for l := 0; l < lanes; l++ {
+		wg.Add(1)
+		go func(l int) {
+			defer wg.Done()
+			for r := 0; r < rounds && atomic.LoadInt32(&stopAll) == 0; r++ {
+				e := sched.NewThreadPoolExecutor(nw, capacity).(*sched.ThreadPoolExecutor)
+				status := make([]int32, nsub)
+				runs := make([]int32, nsub)
+				var ready, goFlag, back int32
+				for g := 0; g < nsub; g++ {
+					go func(g int) {
+						t := sched.NewTask(func() error { atomic.AddInt32(&runs[g], 1); return nil })
+						atomic.AddInt32(&ready, 1)
+						for k := 0; atomic.LoadInt32(&goFlag) == 0; k++ {
+							if k > 256 { // spin briefly, then yield: more spinners than cores must not starve the lane
+								runtime.Gosched()
+							}
+						}
+						var err error
+						p, val := Catch(func() { err = e.Execute(t) })
+						st := int32(1)
+						if p {
+							st = 3
+							if runtimePanic(val) {
+								st = 8
+							}
+						} else if err != nil {
+							st = 2
+						}
+						atomic.StoreInt32(&status[g], st)
+						atomic.AddInt32(&back, 1)
+					}(g)
+				}
+				for atomic.LoadInt32(&ready) < int32(nsub) {
+					runtime.Gosched()
+				}
+				atomic.StoreInt32(&goFlag, 1)
+				var dl time.Time
+				for k := 0; atomic.LoadInt32(&back) < int32(nsub); k++ {
+					runtime.Gosched()
+					if k == 4096 {
+						dl = time.Now().Add(2 * time.Second)
+					}
+					if k > 4096 && k%1024 == 0 && time.Now().After(dl) {
+						break
+					}
+				}
+				res := result{st: make([]int, nsub), runs: make([]int, nsub)}
+				if atomic.LoadInt32(&back) < int32(nsub) {
+					// stalled: how many callers of THIS executor are parked inside start()?
+					time.Sleep(10 * time.Millisecond)
+					parked, moving := 0, 0
+					tag := fmt.Sprintf("sched.(*ThreadPoolExecutor).start(%p", e)
+					for _, g := range GDump() {
+						if strings.Contains(g.Text, tag) {
+							if parkedState(g.State) {
+								parked++
+							} else {
+								moving++
+							}
+						}
+					}
+					missing := nsub - int(atomic.LoadInt32(&back))
+					res.stalled = moving == 0 && parked == missing && e.VerifState() == 2
+					res.incon = !res.stalled
+				}
+				bad := res.stalled
+				for g := 0; g < nsub; g++ {
+					res.st[g] = int(atomic.LoadInt32(&status[g]))
+					if res.st[g] == 0 && res.stalled {
+						res.st[g] = 4 // parked inside start() for good
+					} else if res.st[g] == 0 {
+						res.st[g] = 5
+					}
+					if res.st[g] != 1 && res.st[g] != 5 {
+						bad = true
+					}
+				}
+				if !res.stalled && !res.incon {
+					Catch(func() { e.Shutdown() })
+				}
+				for g := 0; g < nsub; g++ {
+					res.runs[g] = int(atomic.LoadInt32(&runs[g]))
+					if res.st[g] == 1 && res.runs[g] != 1 && !res.stalled && !res.incon {
+						bad = true
+					}
+				}
+				last[l] = res
+				if bad || res.incon {
+					if found.Load() == nil || bad {
+						found.Store(res)
+					}
+					if bad {
+						atomic.StoreInt32(&stopAll, 1)
+					}
+					return
+				}
+			}
+		}(l)
+	}
+	wg.Wait()
+	res := last[0]
+	if v := found.Load(); v != nil {
+		res = v.(result)
+	}
+	ones := make([]int, nsub)
+	for i := range ones {
+		ones[i] = 1
+	}
+	shutret := !res.stalled && !res.incon
+	return List(ints(res.st), ints(make([]int, nsub)), ints(res.runs), ints(res.runs), List(Int(0), Bool(shutret), Bool(res.incon && !res.stalled),
+		Int(0), Int(0), Bool(true), Bool(false), Int(0), Bool(false)))
+}
+
 func run(in Sx) Sx {
 	if in.At(0).AsInt() == 0 {
 		return runScript(in)
 	}
 	if in.Len() > 7 && in.At(7).AsInt() == 5 {
 		return runLean(in)
+	}
+	if in.Len() > 7 && in.At(7).AsInt() == 6 {
+		return leanFresh(in)
+	}
+	if in.Len() > 7 && in.At(7).AsInt() == 7 {
+		return runPanicShape(in)
 	}
 	return runConc(in)
 }
@@ -1221,6 +1479,20 @@ func gen(a Args, out *Out) {
 	for i := 0; i < nfresh/3; i++ {
 		emit("fullrace", genFullRace(r8))
 	}
+	for shape := range shapeNames {
+		for _, w := range []int{1, 2} {
+			in := List(Int(1), Int(int64(w)), Int(8), Int(1), Int(5), Int(int64(shape)), Int(0), Int(7))
+			emit("panicshape", in)
+			out.Count("panicshape:" + shapeNames[shape])
+		}
+	}
+	r10 := rng.Fork()
+	for i := 0; i < nfresh/80; i++ {
+		rounds := 1500
+		in := List(Int(1), Int(int64(r10.PickInt(1, 2, 4))), Int(8), Int(6), Int(1), Uint(r10.Next()>>1), Int(int64(rounds)), Int(6))
+		emit("leanfresh", in)
+		out.CountN("leanfresh:fresh executors (4 lanes)", 4*rounds)
+	}
 	r9 := rng.Fork()
 	for i := 0; i < nfresh/8; i++ {
 		emit("leanrace", genLeanRace(r9, 80))
@@ -1240,6 +1512,10 @@ func gen(a Args, out *Out) {
 }
 
 func main() {
+	if spec := os.Getenv("C18_CHILD"); spec != "" {
+		childMain(spec)
+		return
+	}
 	sched.VerifExecutorHook = pointHook
 	log.SetOutput(io.Discard)
 	if f, err := os.OpenFile(os.DevNull, os.O_WRONLY, 0); err == nil {
